@@ -159,6 +159,10 @@ class Gen:
     def hint(self, f, kind, extra=None):
         h = f.setdefault("hint", {})
         h[kind] = extra if extra is not None else True
+        # a field that steers a size / count / position keeps a small default (a default packet that shifts
+        # by 4 GiB only exercises a resource limit)
+        if f.get("t") == "int" and isinstance(f.get("default"), int) and not (0 <= f["default"] <= 7):
+            f["default"] = 2
 
     # ------------------------------------------------------------------ fields
     def gen_int(self, name, small=False):
